@@ -20,7 +20,7 @@ TIMEOUT = 1500
 RULE = ('case = one bound of one class/option combination (UnitCube, Ellipsoid, UnitCubeEllipsoidMixture, '
         'Union{member class, unit or not, n_points_min}, NeuralBound{0,1,2 nets}, NautilusBound{0,1,2 nets, '
         'periodic or not, split_threshold 1|100}, d = 2..8) brought into a reachable state by a seeded history '
-        'over {split, split(no overlap), trim, sample(k)}, written to an HDF5 group and read back with a cloned '
+        'over {split (every third union is first split up to 16 times, so that more than ten members exist), split(no overlap), trim, sample(k)}, written to an HDF5 group and read back with a cloned '
         'generator; original and copy are then driven in lock-step (contains on probe points, log_v, sample '
         'streams long enough to force several refills). For Union/NautilusBound the group is then update()d '
         'after more sampling, compared with a fresh write() and read back again. Non-trivial = the write '
@@ -82,7 +82,7 @@ def run_case(spec):
     d = int(rng.integers(2, 9))
     if kind in ('NeuralBound', 'NautilusBound'):
         d = min(d, 6)
-    obs = dict(lockstep_calls=0, contains_probes=0, sample_points_compared=0, roundtrips=0, update_roundtrips=0,
+    obs = dict(members_max=0, bounds_with_more_than_10_members=0, lockstep_calls=0, contains_probes=0, sample_points_compared=0, roundtrips=0, update_roundtrips=0,
                cache_nonempty_at_write=0, refills_forced=0, history_ops=0)
     viols = []
     history = []
@@ -99,16 +99,24 @@ def run_case(spec):
             prob = boundgen.problem(rng, shape, d)
             if kind == 'NautilusBound':
                 if opts.get('force_periodic') and prob['periodic'] is None:
-                    prob['periodic'] = np.sort(rng.choice(d, int(rng.integers(1, d + 1)), replace=False))
+                    prob['periodic'] = rng.choice(d, int(rng.integers(1, d + 1)), replace=False)
                 if not opts.get('force_periodic'):
                     prob['periodic'] = None
                 opts['log_v_target'] = float(np.log(prob['n_live'] / len(prob['points'])) - rng.uniform(0, 7))
+                if spec['i'] % 3 == 0 and opts.get('split_threshold') == 1:
+                    opts['log_v_target'] -= 8.0          # forces the outer union to split as far as it can
+                    opts['n_points_min'] = d + 1
             brng = np.random.default_rng(int(rng.integers(2 ** 31)))
             b, cons = boundgen.build(kind, prob, opts, brng)
             can_sample = kind != 'NeuralBound'
             has_cache = kind in ('Union', 'NautilusBound')
             # history before the write
             if kind == 'Union':
+                if spec['i'] % 3 == 0:          # many members: more than ten ellipsoids (bound_10, bound_11, ...)
+                    for _ in range(16):
+                        if not b.split():
+                            break
+                        history.append(['split', True])
                 for _ in range(int(rng.integers(0, 7))):
                     op = str(rng.choice(['split', 'split', 'split_no_overlap', 'trim', 'sample']))
                     if op == 'split_no_overlap' and opts['bound_class'] != 'Ellipsoid':
@@ -212,6 +220,9 @@ def run_case(spec):
                 return None
 
         cache = len(getattr(b, 'points', ())) if has_cache else 0
+        n_members = len(b.bounds) if kind == 'Union' else (len(b.outer_bound.bounds) if kind == 'NautilusBound' else 1)
+        obs['members_max'] = n_members
+        obs['bounds_with_more_than_10_members'] = int(n_members > 10)
         obs['cache_nonempty_at_write'] = int(cache > 0)
         with h5py.File(path, 'w') as f:
             b.write(f.create_group('b'))
